@@ -135,11 +135,29 @@ def run(job: dict, state: dict, child) -> dict:  # noqa: ANN001
                     text, _pkg_info = gen(by_id[mid])
                     rec["modules"][mid] = keep(text)
             elif op["op"] == "WRITE":
-                if not last_gen:
-                    gen = StubsStringGenerator(api=model, convert_identifiers=flag)
-                    last_gen = {"gen": gen, "data": generate_stub_data(stubs_generator=gen, out_path=out_dir)}
-                create_stub_files(stubs_generator=last_gen["gen"], stubs_data=last_gen["data"], out_path=out_dir)
-                rec["written"] = len(last_gen["data"])
+                # generate with a fresh generator on the chosen model, then write the SAME data `repeat` times into the
+                # (emptied) output directory; the tree after every write is reported
+                import shutil
+
+                gen = StubsStringGenerator(api=model, convert_identifiers=flag)
+                data = generate_stub_data(stubs_generator=gen, out_path=out_dir)
+                state["active"] = False
+                shutil.rmtree(out_dir, ignore_errors=True)
+                state["active"] = True
+                rec["trees"] = []
+                for _rep in range(int(op.get("repeat", 1))):
+                    create_stub_files(stubs_generator=gen, stubs_data=data, out_path=out_dir)
+                    m = hashlib.sha256()
+                    n_files = 0
+                    for dirpath, dirnames, filenames in os.walk(out_dir):
+                        dirnames.sort()
+                        for fn in sorted(filenames):
+                            full = os.path.join(dirpath, fn)
+                            with open(full, "rb") as fh:
+                                m.update(os.path.relpath(full, out_dir).encode() + b"\0" + hashlib.sha256(fh.read()).digest())
+                            n_files += 1
+                    rec["trees"].append([n_files, m.hexdigest()])
+                rec["written"] = len(data)
             elif op["op"] == "JSON":
                 model.to_json_file(out_dir / "component__api.json")
             elif op["op"] == "DICT":
